@@ -26,6 +26,7 @@ CONSTANTS = {
     "jax.numpy.inf": float("inf"),
     "jax.numpy.int32": "int32", "jax.numpy.int64": "int64", "jax.numpy.float64": "float64",
     "jax.numpy.newaxis": None,
+    "math.pi": PI, "numpy.pi": PI, "math.inf": float("inf"), "numpy.inf": float("inf"), "numpy.newaxis": None,
 }
 
 ALIASES = {
@@ -1366,6 +1367,9 @@ BUILTINS = {
     "sorted": lambda I, a, k: sorted(*a), "set": lambda I, a, k: set(*a),
     "abs": lambda I, a, k: abs(a[0]) if not isinstance(a[0], Val) else nf.elementwise("Abs", a[0]),
     "sum": b_sum, "range": b_range, "enumerate": b_enumerate, "type": lambda I, a, k: b_type(I, a, k),
+    # staticmethod(f) / classmethod-free hooks stored as class attributes: the wrapped callable itself (no receiver is bound when it
+    # is looked up through an instance, because class constants are returned as they are)
+    "staticmethod": lambda I, a, k: a[0],
     "getattr": lambda I, a, k: b_getattr(I, a, k), "hasattr": lambda I, a, k: b_hasattr(I, a, k),
     "setattr": lambda I, a, k: I.setattr(a[0], a[1], a[2]),
     "any": lambda I, a, k: any(bool(I.truth(x)) for x in I.concrete_iter(a[0])),
@@ -1395,6 +1399,8 @@ EXT = {
     "jax.numpy.cosh": _elementwise("Cosh"), "jax.numpy.tanh": _elementwise("Tanh"), "jax.numpy.abs": _elementwise("Abs"),
     "jax.numpy.round": _elementwise("Round"), "jax.numpy.sign": _elementwise("Sign"),
     "jax.numpy.cumsum": not_modelled("cumsum"),
+    "math.log": _elementwise("Log"), "math.sqrt": _elementwise("Sqrt"), "math.exp": _elementwise("Exp"),
+    "numpy.log": _elementwise("Log"), "numpy.sqrt": _elementwise("Sqrt"), "numpy.exp": _elementwise("Exp"),
     "jax.numpy.log1p": j_log1p, "jax.numpy.expm1": j_expm1, "jax.numpy.square": j_square, "jax.numpy.negative": j_negative,
     "jax.numpy.add": j_add, "jax.numpy.subtract": j_subtract, "jax.numpy.multiply": j_multiply, "jax.numpy.divide": j_divide,
     "jax.numpy.matmul": j_matmul, "jax.numpy.transpose": j_transpose, "jax.numpy.expand_dims": j_expand_dims,
